@@ -335,6 +335,9 @@ impl Prop for Binaries {
     fn name(&self) -> &'static str {
         "binaries"
     }
+    fn max_shrink_iters(&self) -> u32 {
+        300
+    }
     fn tape_len(&self) -> usize {
         300
     }
